@@ -315,7 +315,7 @@ func (it *Interp) branch(c *term.Term) bool {
 		return d.B
 	}
 	if len(it.trace) > it.cfg.maxDecisions() {
-		panic(boundHit{"decision budget"})
+		panic(boundHit{"decision budget at " + it.where()})
 	}
 	r1, _ := it.check(c, nil)
 	if r1 == smt.Unsat {
@@ -383,7 +383,7 @@ func (it *Interp) concretize(t *term.Term, what string) uint64 {
 	}
 	for n := 0; ; n++ {
 		if n > 4096 {
-			panic(boundHit{"concretisation of " + what + ": more than 4096 values"})
+			panic(boundHit{"concretisation of " + what + ": more than 4096 values at " + it.where()})
 		}
 		var v uint64
 		pos := len(it.trace)
